@@ -190,8 +190,8 @@ impl Subject for CalBump {
     const MODEL: bool = false;
     fn types() -> Vec<&'static str> { vec![tn::<bump_allocator::BumpAllocator>(), tn::<BumpAllocator>()] }
     fn header(cap: usize) -> String { format!("C calbump reloc chunks {}", cap) }
-    fn alphabet(_cap: usize) -> Vec<AOp> { vec![AOp::Alloc(8, 8), AOp::Alloc(3, 1), AOp::Alloc(BUCKET, 4), AOp::Dealloc(0), AOp::GrowFront(0), AOp::GrowFront(1), AOp::Info] }
-    fn random_op(rng: &mut Rng, cap: usize, bias: u64) -> AOp { arandom(rng, cap, bias, false) }
+    fn alphabet(_cap: usize) -> Vec<AOp> { vec![AOp::Alloc(8, 8), AOp::Alloc(3, 1), AOp::Alloc(BUCKET, 4), AOp::Alloc(5, 2), AOp::Dealloc(0), AOp::Info] }
+    fn random_op(rng: &mut Rng, cap: usize, bias: u64) -> AOp { match arandom(rng, cap, bias, false) { AOp::GrowFront(_) => AOp::Info, o => o } }
     fn block_len(cap: usize) -> usize { PAYLOAD_OFF + cap * BUCKET + 64 }
     unsafe fn build(block: *mut u8, len: usize, cap: usize) -> ALocal { bump_build(block, len, cap) }
     unsafe fn apply(l: &mut ALocal, block: *mut u8, _cap: usize, op: &AOp, out: &mut Vec<String>) -> bool { bump_apply(l, block, op, out) }
@@ -205,7 +205,7 @@ impl Subject for CalBumpGrowBack {
     const MODEL: bool = false;
     fn types() -> Vec<&'static str> { CalBump::types() }
     fn header(cap: usize) -> String { format!("C calbumpgrow reloc chunks {}", cap) }
-    fn alphabet(_cap: usize) -> Vec<AOp> { vec![AOp::Alloc(8, 8), AOp::Dealloc(0), AOp::GrowBack(0), AOp::GrowBack(1), AOp::GrowFront(0)] }
+    fn alphabet(_cap: usize) -> Vec<AOp> { vec![AOp::Alloc(8, 8), AOp::Dealloc(0), AOp::GrowBack(0), AOp::GrowBack(1), AOp::GrowFront(0), AOp::GrowFront(1)] }
     fn random_op(rng: &mut Rng, cap: usize, bias: u64) -> AOp { arandom(rng, cap, bias, true) }
     fn block_len(cap: usize) -> usize { CalBump::block_len(cap) }
     unsafe fn build(block: *mut u8, len: usize, cap: usize) -> ALocal { bump_build(block, len, cap) }
